@@ -33,12 +33,14 @@ package keeper
 
 //@ func Keeper.GetBeaconOwner(ctx, beaconID) (owner)
 //@   props C07 C08 C09 C13
+//@   nopanic
 //@   pure
 //@   ensures bcHas(bea_store, beaconID) && validBech32(bcGet(bea_store, beaconID).Owner) ==> owner == addrOf(bcGet(bea_store, beaconID).Owner)
 //@   ensures !(bcHas(bea_store, beaconID) && validBech32(bcGet(bea_store, beaconID).Owner)) ==> len(owner) == 0
 
 //@ func Keeper.IsAuthorisedToRecord(ctx, beaconID, recorder) (ok)
 //@   props C07 C08 C09 C13
+//@   nopanic
 //@   pure
 //@   requires 1 <= len(recorder)
 //@   ensures ok ==> bcHas(bea_store, beaconID) && validBech32(bcGet(bea_store, beaconID).Owner) && sameAddr(recorder, addrOf(bcGet(bea_store, beaconID).Owner))
@@ -47,6 +49,7 @@ package keeper
 
 //@ func Keeper.GetHighestBeaconID(ctx) (id, err)
 //@   props C09
+//@   nopanic
 //@   pure
 //@   requires beaHighestSet(bea_store) ==> len(bea_store[kBHighest]) == 8
 //@   ensures (err == nil) == beaHighestSet(bea_store)
@@ -54,6 +57,7 @@ package keeper
 
 //@ func Keeper.SetHighestBeaconID(ctx, beaconID)
 //@   props C09
+//@   nopanic
 //@   modifies bea_store
 //@   ensures beaHighestIs(bea_store, beaconID)
 //@   ensures bea_store == old(bea_store)[kBHighest := bea_store[kBHighest]]
@@ -76,6 +80,7 @@ package keeper
 
 //@ func Keeper.SetBeaconStorageLimit(ctx, beaconId, limit) (err)
 //@   props C08 C09
+//@   nopanic
 //@   modifies bea_store
 //@   ensures err == nil && bea_store == blimPut(old(bea_store), beaconId, limit)
 
@@ -117,6 +122,7 @@ package keeper
 
 //@ func Keeper.SetParams(ctx, params) (err)
 //@   props C16
+//@   nopanic
 //@   modifies bea_store
 //@   ensures err == nil ==> bea_store == beaParamsPut(old(bea_store), params)
 //@   ensures err == nil ==> validDenom(params.Denom) && params.FeeRegister >= 1 && params.FeeRecord >= 1 && params.FeePurchaseStorage >= 1
@@ -142,10 +148,12 @@ package keeper
 //@   ensures beaParamsSet(bea_store) ==> r == beaParams(bea_store).FeePurchaseStorage
 //@ func Keeper.GetParamDefaultStorageLimit(ctx) (r)
 //@   props C08 C09 C16
+//@   nopanic
 //@   pure
 //@   ensures beaParamsSet(bea_store) ==> r == beaParams(bea_store).DefaultStorageLimit
 //@ func Keeper.GetParamMaxStorageLimit(ctx) (r)
 //@   props C08 C16
+//@   nopanic
 //@   pure
 //@   ensures beaParamsSet(bea_store) ==> r == beaParams(bea_store).MaxStorageLimit
 
@@ -171,6 +179,7 @@ package keeper
 
 //@ func Keeper.RegisterNewBeacon(ctx, beacon) (id, err)
 //@   props C08 C09
+//@   nopanic
 //@   requires beaHighestSet(bea_store) ==> len(bea_store[kBHighest]) == 8
 //@   requires beaParamsSet(bea_store)
 //@   requires 0 <= unixSecs(blockTime(ctx)) && unixSecs(blockTime(ctx)) < 2^63
@@ -186,12 +195,14 @@ package keeper
 
 //@ func Keeper.IncreaseInStateStorage(ctx, beaconId, amount) (err)
 //@   props C08
+//@   nopanic
 //@   requires blimHas(bea_store, beaconId)
 //@   modifies bea_store
 //@   ensures err == nil && bea_store == blimPut(old(bea_store), beaconId, wrapu64(blimGet(old(bea_store), beaconId) + amount))
 
 //@ func Keeper.GetMaxPurchasableSlots(ctx, beaconId) (n)
 //@   props C08 C06
+//@   nopanic
 //@   pure
 //@   requires beaParamsSet(bea_store)
 //@   ensures blimHas(bea_store, beaconId) ==> n == max(0, beaParams(bea_store).MaxStorageLimit - blimGet(bea_store, beaconId))
@@ -201,6 +212,7 @@ package keeper
 
 //@ func msgServer.RecordBeaconTimestamp(goCtx, msg) (resp, err)
 //@   props C07 C08 C09 C13 C01
+//@   nopanic
 //@   requires BEA_ALL(bea_store)
 //@   requires msg.SubmitTime != 0
 //@   requires bcHas(bea_store, msg.BeaconId) ==> bcGet(bea_store, msg.BeaconId).LastTimestampId < 2^64 - 1
@@ -224,6 +236,7 @@ package keeper
 
 //@ func msgServer.RegisterBeacon(goCtx, msg) (resp, err)
 //@   props C08 C09 C13
+//@   nopanic
 //@   requires BEA_ALL(bea_store) && BEA_FRESH(bea_store) && beaParamsSet(bea_store)
 //@   requires beaParams(bea_store).DefaultStorageLimit >= 1
 //@   requires 0 <= unixSecs(blockTime(goCtx)) && unixSecs(blockTime(goCtx)) < 2^63
@@ -243,6 +256,7 @@ package keeper
 
 //@ func msgServer.PurchaseBeaconStateStorage(goCtx, msg) (resp, err)
 //@   props C08 C09 C13
+//@   nopanic
 //@   requires BEA_ALL(bea_store) && beaParamsSet(bea_store)
 //@   let id := msg.BeaconId
 //@   let s0 := old(bea_store)
@@ -257,6 +271,7 @@ package keeper
 
 //@ func msgServer.UpdateParams(goCtx, req) (resp, err)
 //@   props C13 C16
+//@   nopanic
 //@   modifies bea_store
 //@   ensures @authority_only err == nil ==> req.Authority == k.Keeper.authority
 //@   ensures @rejected_changes_nothing err != nil ==> bea_store == old(bea_store)
